@@ -24,6 +24,11 @@ package main
 //	             the data flow of decodeLocals, mergeMaps, decodeLocalBlock and ParseHCLFile (which map is written
 //	             over which, what the next context is built from, under which context attributes / the body are
 //	             evaluated)
+//	errFlow      what becomes of the error / diagnostics value of every fallible call of ParseHCLFile, decodeLocals,
+//	             decodeLocalBlock, ConvertHCLToAmmo, DecodeMap, ParseAmmoConfig (tested by the next statement and
+//	             returned, or not): a failing local / expression / marshal step refuses the file
+//	readerNilTests  comparisons of a slice / map with nil in the readers of the decoded AmmoConfig (the model
+//	             identifies nil and empty collections)
 //
 // Anything that does not have the expected shape is a translation error (gen exits non-zero).
 
@@ -664,7 +669,351 @@ func hclYamlExtra(t *tr) string {
 	b.WriteString("def decoderTagName : String := " + flags["TagName"] + "\n")
 	b.WriteString("/-- `pluginconfig.PluginNameKey` -/\ndef pluginNameKey : String := " + nameKey + "\n\n")
 	b.WriteString(localsFacts)
+	b.WriteString(hyErrFlow(g, p))
+	b.WriteString(hyNilTests(g, p))
 	return b.String()
+}
+
+// ---- error propagation: what happens to the error / diagnostics value of every fallible call
+
+// hyIsErrType: `error` or hcl.Diagnostics
+func hyIsErrType(t types.Type) bool {
+	if t == nil {
+		return false
+	}
+	if types.Identical(t, types.Universe.Lookup("error").Type()) {
+		return true
+	}
+	if n, ok := t.(*types.Named); ok && n.Obj().Name() == "Diagnostics" && n.Obj().Pkg() != nil && strings.HasSuffix(n.Obj().Pkg().Path(), "hashicorp/hcl/v2") {
+		return true
+	}
+	return false
+}
+
+// hyCalleeName: a name of the called function that does not depend on the names of local variables:
+// pkg.Func, (pkg.Type).Method, or the bare name of a local function
+func hyCalleeName(p *packages.Package, c *ast.CallExpr) string {
+	fun := c.Fun
+	if ix, ok := fun.(*ast.IndexExpr); ok {
+		fun = ix.X
+	}
+	var id *ast.Ident
+	switch f := fun.(type) {
+	case *ast.Ident:
+		id = f
+	case *ast.SelectorExpr:
+		id = f.Sel
+	default:
+		return hyNodeString(p, c.Fun)
+	}
+	obj := p.TypesInfo.Uses[id]
+	fn, ok := obj.(*types.Func)
+	if !ok {
+		return id.Name
+	}
+	pkg := ""
+	if fn.Pkg() != nil && fn.Pkg().Path() != hyCfgPkg {
+		pkg = fn.Pkg().Name() + "."
+	}
+	if sig, ok := fn.Type().(*types.Signature); ok && sig.Recv() != nil {
+		rt := sig.Recv().Type()
+		if pt, ok := rt.(*types.Pointer); ok {
+			rt = pt.Elem()
+		}
+		if n, ok := rt.(*types.Named); ok {
+			return "(" + pkg + n.Obj().Name() + ")." + fn.Name()
+		}
+		return "(" + pkg + "?)." + fn.Name()
+	}
+	return pkg + fn.Name()
+}
+
+func hyMentions(p *packages.Package, n ast.Node, o types.Object) bool {
+	found := false
+	ast.Inspect(n, func(x ast.Node) bool {
+		if id, ok := x.(*ast.Ident); ok && o != nil && (p.TypesInfo.Uses[id] == o || p.TypesInfo.Defs[id] == o) {
+			found = true
+		}
+		return !found
+	})
+	return found
+}
+
+// hyReturnsErr: the block ends by returning (directly, wrapped, or through a named result assigned just before a bare
+// return) a value built from o
+func hyReturnsErr(p *packages.Package, body *ast.BlockStmt, o types.Object) bool {
+	if body == nil || len(body.List) == 0 {
+		return false
+	}
+	ret, ok := body.List[len(body.List)-1].(*ast.ReturnStmt)
+	if !ok {
+		return false
+	}
+	for _, r := range ret.Results {
+		if hyIsErrType(p.TypesInfo.TypeOf(r)) && hyMentions(p, r, o) {
+			return true
+		}
+	}
+	if len(ret.Results) == 0 {
+		for _, st := range body.List[:len(body.List)-1] {
+			if as, ok := st.(*ast.AssignStmt); ok && len(as.Lhs) == 1 && len(as.Rhs) == 1 &&
+				hyIsErrType(p.TypesInfo.TypeOf(as.Lhs[0])) && hyMentions(p, as.Rhs[0], o) {
+				return true
+			}
+		}
+	}
+	return false
+}
+
+// hyErrFlow: for every call in the conversion functions whose result carries an error / diagnostics value:
+// "returned" = the very next statement tests that value and returns it; "returned-on-other-condition" = the next
+// statement returns it under a condition on something else; "unchecked" / "discarded" / "checked-not-returned"
+func hyErrFlow(g *hyGen, p *packages.Package) string {
+	var rows []string
+	for _, fname := range []string{"ParseHCLFile", "decodeLocals", "decodeLocalBlock", "ConvertHCLToAmmo", "DecodeMap", "ParseAmmoConfig"} {
+		fd := findFunc(p, fname)
+		if fd == nil {
+			g.fail("%s not found", fname)
+			continue
+		}
+		var walk func(list []ast.Stmt)
+		site := func(as *ast.AssignStmt, next ast.Stmt, self *ast.IfStmt) {
+			if len(as.Rhs) != 1 {
+				return
+			}
+			call, ok := as.Rhs[0].(*ast.CallExpr)
+			if !ok {
+				return
+			}
+			tv := p.TypesInfo.TypeOf(call)
+			var resTypes []types.Type
+			if tup, ok := tv.(*types.Tuple); ok {
+				for i := 0; i < tup.Len(); i++ {
+					resTypes = append(resTypes, tup.At(i).Type())
+				}
+			} else {
+				resTypes = []types.Type{tv}
+			}
+			if len(resTypes) != len(as.Lhs) {
+				return
+			}
+			for i, rt := range resTypes {
+				if !hyIsErrType(rt) {
+					continue
+				}
+				callee := hyCalleeName(p, call)
+				id, ok := as.Lhs[i].(*ast.Ident)
+				if !ok {
+					rows = append(rows, fmt.Sprintf("(%q, %q, %q)", fname, callee, "stored-elsewhere"))
+					continue
+				}
+				if id.Name == "_" {
+					rows = append(rows, fmt.Sprintf("(%q, %q, %q)", fname, callee, "discarded"))
+					continue
+				}
+				o := hyObj(p, id)
+				how := "unchecked"
+				ifs := self
+				if ifs == nil {
+					ifs, _ = next.(*ast.IfStmt)
+				}
+				if ifs != nil && (ifs.Init == nil || ifs == self) {
+					switch {
+					case hyMentions(p, ifs.Cond, o) && hyReturnsErr(p, ifs.Body, o):
+						how = "returned"
+					case hyMentions(p, ifs.Cond, o):
+						how = "checked-not-returned"
+					case hyReturnsErr(p, ifs.Body, o):
+						how = "returned-on-other-condition"
+					}
+				}
+				if how == "unchecked" {
+					// the last statement of the function may hand the error on directly: `return cfg, err` / `ammoCfg, err = f(); …`
+					if rs, ok := next.(*ast.ReturnStmt); ok {
+						for _, r := range rs.Results {
+							if hyMentions(p, r, o) {
+								how = "returned"
+							}
+						}
+					}
+				}
+				rows = append(rows, fmt.Sprintf("(%q, %q, %q)", fname, callee, how))
+			}
+		}
+		walk = func(list []ast.Stmt) {
+			for i, st := range list {
+				var next ast.Stmt
+				if i+1 < len(list) {
+					next = list[i+1]
+				}
+				switch x := st.(type) {
+				case *ast.AssignStmt:
+					site(x, next, nil)
+				case *ast.IfStmt:
+					if as, ok := x.Init.(*ast.AssignStmt); ok {
+						site(as, nil, x)
+					}
+					walk(x.Body.List)
+					if eb, ok := x.Else.(*ast.BlockStmt); ok {
+						walk(eb.List)
+					}
+				case *ast.RangeStmt:
+					walk(x.Body.List)
+				case *ast.ForStmt:
+					walk(x.Body.List)
+				case *ast.BlockStmt:
+					walk(x.List)
+				case *ast.SwitchStmt:
+					for _, cs := range x.Body.List {
+						walk(cs.(*ast.CaseClause).Body)
+					}
+				}
+			}
+		}
+		walk(fd.Body.List)
+	}
+	loops := hyLoopFacts(g, p)
+	return loops + "/-- what becomes of the error / diagnostics value of every fallible call of the conversion functions:\n(function, callee, \"returned\" = tested by the next statement and returned | \"returned-on-other-condition\" | \"checked-not-returned\" |\n\"unchecked\" | \"discarded\" | \"stored-elsewhere\") -/\n" +
+		"def errFlow : List (String × String × String) := [\n  " + strings.Join(rows, ",\n  ") + "]\n\n"
+}
+
+// hyLoopFacts: the two loops of the locals evaluation leave nothing out.  decodeLocals: the branch statements of its
+// loop over the blocks (with the loop variable written `blk`); decodeLocalBlock: the branch statements of its loop over
+// the attributes, and whether every attribute's value is stored under the attribute's name in the returned map.
+func hyLoopFacts(g *hyGen, p *packages.Package) string {
+	branches := func(fname string) ([]string, *ast.RangeStmt, *ast.FuncDecl) {
+		fd := findFunc(p, fname)
+		if fd == nil {
+			g.fail("%s not found", fname)
+			return nil, nil, nil
+		}
+		var loop *ast.RangeStmt
+		for _, st := range fd.Body.List {
+			if rs, ok := st.(*ast.RangeStmt); ok && loop == nil {
+				loop = rs
+			}
+		}
+		if loop == nil {
+			g.fail("%s: no range loop", fname)
+			return nil, nil, fd
+		}
+		loopVar := ""
+		if id, ok := loop.Value.(*ast.Ident); ok {
+			loopVar = id.Name
+		}
+		var out []string
+		var walk func(list []ast.Stmt, cond string)
+		walk = func(list []ast.Stmt, cond string) {
+			for _, st := range list {
+				switch x := st.(type) {
+				case *ast.BranchStmt:
+					out = append(out, x.Tok.String()+":"+cond)
+				case *ast.IfStmt:
+					c := hyNodeString(p, x.Cond)
+					if loopVar != "" {
+						c = strings.ReplaceAll(c, loopVar, "blk")
+					}
+					walk(x.Body.List, c)
+					if eb, ok := x.Else.(*ast.BlockStmt); ok {
+						walk(eb.List, "!("+c+")")
+					}
+				case *ast.BlockStmt:
+					walk(x.List, cond)
+				case *ast.ForStmt:
+					walk(x.Body.List, cond)
+				case *ast.RangeStmt:
+					walk(x.Body.List, cond)
+				case *ast.SwitchStmt:
+					for _, cs := range x.Body.List {
+						walk(cs.(*ast.CaseClause).Body, "switch")
+					}
+				}
+			}
+		}
+		walk(loop.Body.List, "")
+		return out, loop, fd
+	}
+	lb, _, _ := branches("decodeLocals")
+	bb, bloop, bfd := branches("decodeLocalBlock")
+	stores := false
+	if bloop != nil && bfd != nil {
+		// val, … := <attr>.Expr.Value(ctx) … M[<range key>] = val … return M, nil
+		var valObj, mapObj types.Object
+		for _, st := range bloop.Body.List {
+			as, ok := st.(*ast.AssignStmt)
+			if !ok || len(as.Rhs) != 1 {
+				continue
+			}
+			if c, ok := as.Rhs[0].(*ast.CallExpr); ok && len(as.Lhs) >= 1 {
+				if sel, ok := c.Fun.(*ast.SelectorExpr); ok && sel.Sel.Name == "Value" {
+					valObj = hyObj(p, as.Lhs[0])
+				}
+			}
+			if ix, ok := as.Lhs[0].(*ast.IndexExpr); ok && len(as.Lhs) == 1 && valObj != nil && hyObj(p, as.Rhs[0]) == valObj &&
+				hyObj(p, ix.Index) != nil && hyObj(p, ix.Index) == hyObj(p, bloop.Key) {
+				mapObj = hyObj(p, ix.X)
+			}
+		}
+		if last, ok := bfd.Body.List[len(bfd.Body.List)-1].(*ast.ReturnStmt); ok && mapObj != nil && len(last.Results) >= 1 && hyObj(p, last.Results[0]) == mapObj {
+			// the loop ranges over what JustAttributes returned
+			stores = true
+		}
+	}
+	return "/-- `decodeLocals`: the branch statements (continue / break / goto, with the condition they stand under; the loop\nvariable is written `blk`) of its loop over the blocks -/\n" +
+		"def localsLoopBranches : List String := " + hyStrList(lb) + "\n" +
+		"/-- `decodeLocalBlock`: the branch statements of its loop over the attributes -/\n" +
+		"def localBlockBranches : List String := " + hyStrList(bb) + "\n" +
+		"/-- `decodeLocalBlock`: every iteration stores the value of the attribute under the attribute's name in the map the\nfunction returns -/\n" +
+		fmt.Sprintf("def localBlockStoresAll : Bool := %v\n\n", stores)
+}
+
+// hyNilTests: comparisons of a slice- or map-typed expression with nil, and reflect.DeepEqual calls, in the code that
+// reads the decoded AmmoConfig (scenario/http, scenario/grpc, the non-test functions of config/decode.go): the model
+// identifies nil and empty collections, which is sound as long as no reader tells them apart
+func hyNilTests(g *hyGen, p *packages.Package) string {
+	var rows []string
+	scan := func(pkg *packages.Package, fileSuffix string) {
+		for _, f := range pkg.Syntax {
+			fn := pkg.Fset.Position(f.Pos()).Filename
+			if strings.HasSuffix(fn, "_test.go") || (fileSuffix != "" && !strings.HasSuffix(fn, fileSuffix)) {
+				continue
+			}
+			for _, d := range f.Decls {
+				fd, ok := d.(*ast.FuncDecl)
+				if !ok || fd.Body == nil {
+					continue
+				}
+				ast.Inspect(fd.Body, func(n ast.Node) bool {
+					switch x := n.(type) {
+					case *ast.BinaryExpr:
+						if x.Op.String() != "==" && x.Op.String() != "!=" {
+							return true
+						}
+						for _, pair := range [][2]ast.Expr{{x.X, x.Y}, {x.Y, x.X}} {
+							if id, ok := pair[1].(*ast.Ident); ok && id.Name == "nil" {
+								switch pkg.TypesInfo.TypeOf(pair[0]).Underlying().(type) {
+								case *types.Slice, *types.Map:
+									rows = append(rows, fmt.Sprintf("(%q, %q)", pkg.Types.Name()+"."+fd.Name.Name, hyNodeString(pkg, x)))
+								}
+							}
+						}
+					case *ast.CallExpr:
+						if sel, ok := x.Fun.(*ast.SelectorExpr); ok && sel.Sel.Name == "DeepEqual" {
+							rows = append(rows, fmt.Sprintf("(%q, %q)", pkg.Types.Name()+"."+fd.Name.Name, hyNodeString(pkg, x)))
+						}
+					}
+					return true
+				})
+			}
+		}
+	}
+	scan(load(hyHTTPPkg), "")
+	scan(load(hyGRPCPkg), "")
+	scan(p, "decode.go")
+	scan(p, "config.go")
+	sort.Strings(rows)
+	return "/-- comparisons of a slice / map with nil (and reflect.DeepEqual calls) in the readers of the decoded `AmmoConfig`\n(scenario/http, scenario/grpc, config/decode.go, config/config.go): (function, expression) -/\n" +
+		"def readerNilTests : List (String × String) := [" + strings.Join(rows, ", ") + "]\n"
 }
 
 func hyNodeString(p *packages.Package, n ast.Node) string {
